@@ -10,7 +10,7 @@ META = dict(
   assumptions=['path shapes: lengths 1..4, concrete coordinates', '0.5 <= |delta| <= 1e6, 0 <= arc_tolerance <= 100'],
   outside=['every region/distance clause', 'DoRound/DoSquare/DoBevel/DoMiter geometry', 'delta callbacks'],
 )
-OBLIGATIONS = []
+OBLIGATIONS = [O('C07.a-group-ctor', 'off_dispatch.cpp', 'harness_group_ctor', unwind=8, bound='path A B B C A, all end/join types', desc='Polygon and Joined groups strip the closing duplicate (closed paths), open end types keep it')]
 for (l0, l1, tier) in [(2, 3, 'qt'), (1, 3, 'qt'), (3, 2, 't'), (2, 2, 't'), (2, 1, 't'), (4, 3, 't')]:
     OBLIGATIONS.append(O('C07.a-dispatch-independent-%d-%d' % (l0, l1), 'off_dispatch.cpp', 'harness_dispatch_independent', defs=['LEN0=%d' % l0, 'LEN1=%d' % l1], replace=OFFW, unwind=8, tiers=tier,
                          bound='group of two paths with %d and %d points; all join/end types, deltas, arc tolerances' % (l0, l1),
